@@ -12,7 +12,7 @@ use stateright::{Model, Property};
 use std::hash::{Hash, Hasher};
 use std::sync::atomic::{AtomicU64, Ordering};
 
-pub const KEYS: [&str; 9] = ["exp", "nbf", "iat", "iss", "a", "sub", "aud", "jti", "b"];
+pub const KEYS: [&str; 9] = ["exp", "nbf", "iat", "iss", "a", "sub", "aud", "jti", "A"]; // custom keys `a` and `A` differ in case only
 
 #[derive(Clone, Debug, PartialEq, Eq, Hash, Serialize, Deserialize)]
 pub enum Op {
